@@ -133,6 +133,8 @@ def run(ctx):
 
         # ---------------- cat
         cb, ce = roles.fn_of("cat")
+        from .c04 import operator_receives_operand_list
+        operator_receives_operand_list(ctx, facts, roles, ce.table, cfg, "K3")
         cu = Unit(roles, cb.key, extended=True, stop=[ts.key])
         pushes = cu.calls_path(r"^std::string::String::push_str$")
         joins = cu.calls_path(r"::(join|concat)$|Iterator(>)?::collect$")
